@@ -12,8 +12,7 @@ Import-free, executable.  Sources modelled (line by line where a property is abo
 * `TIter.next`        — `archiver/tree.rs::TreeIterator::next` incl. `pop`; paths are lists of normal
                          components (root/prefix components are skipped by `comp_to_osstr`).
 * `TA.add`, `TA.backupTree`, `TA.finalize` — `archiver/tree_archiver.rs` (`add`, `add_file`, `backup_tree`,
-                         `finalize`), incl. the `Matched(p_id) if id == *p_id` short-cut that returns before the
-                         `index.has_tree` test, and the summary counters.
+                         `finalize`) and the summary counters.
 Blob / tree ids are `Nat` (abstract ids; the theorems quantify over the hash function).
 -/
 namespace Rustic.Tree
@@ -167,21 +166,20 @@ structure TA where
   summary : Summary := {}
   deriving Repr
 
-/-- `backup_tree`: `H` is `Tree::serialize`'s id, `hasTree` the global index. -/
+/-- `backup_tree`: `H` is `Tree::serialize`'s id, `hasTree` the global index.  (After the C11 repair the
+`Matched(p_id) if id == *p_id` arm only counts; it no longer returns before the `index.has_tree` test.) -/
 def TA.backupTree (H : List Node → Id) (hasTree : Id → Bool) (s : TA) (parent : PRes Id) : TA × Id :=
   let id := H s.tree
-  match parent with
-  | .matched p =>
-    if id = p then ({ s with summary := { s.summary with dirsUnmodified := s.summary.dirsUnmodified + 1 } }, id)
-    else
-      let s := { s with summary := { s.summary with dirsChanged := s.summary.dirsChanged + 1 } }
-      (if hasTree id then s else { s with adds := s.adds ++ [(id, s.tree)] }, id)
-  | .notFound =>
-    let s := { s with summary := { s.summary with dirsNew := s.summary.dirsNew + 1 } }
-    (if hasTree id then s else { s with adds := s.adds ++ [(id, s.tree)] }, id)
-  | .notMatched =>
-    let s := { s with summary := { s.summary with dirsChanged := s.summary.dirsChanged + 1 } }
-    (if hasTree id then s else { s with adds := s.adds ++ [(id, s.tree)] }, id)
+  let sm := s.summary
+  let sm := match parent with
+    | .matched p =>
+      if id = p then { sm with dirsUnmodified := sm.dirsUnmodified + 1 }
+      else { sm with dirsChanged := sm.dirsChanged + 1 }
+    | .notFound => { sm with dirsNew := sm.dirsNew + 1 }
+    | .notMatched => { sm with dirsChanged := sm.dirsChanged + 1 }
+  let s := { s with summary := sm }
+  -- `if !self.index.has_tree(&id) { self.tree_packer.add(chunk, id) }`
+  (if hasTree id then s else { s with adds := s.adds ++ [(id, s.tree)] }, id)
 
 /-- `add_file`: counters, then `self.tree.add(node)`. -/
 def TA.addFile (s : TA) (node : Node) (parent : PRes Unit) (size : Nat) : TA :=
